@@ -123,6 +123,16 @@ func checkC07(cx *Ctx, r *Report) {
 				okDefault = true
 			}
 		}
+		// the same decision taken by a helper: `Encoding: requestEncoding(FormValue("SAMLEncoding"), fromQuery)` whose
+		// returns are DEFLATE exactly under (encoding parameter empty and query flag true) and the encoding parameter
+		// itself otherwise
+		if !okDefault {
+			if why2, ok := cx.deflateDefaultByHelper(fn, ex.form); ok {
+				okDefault = true
+			} else if why2 != "" {
+				why = why2
+			}
+		}
 		// the query lookup is for SAMLRequest
 		hasLookup := false
 		for g := range w.scopeOf(fn) {
@@ -905,4 +915,127 @@ func mentionsTreeLayout(v ssa.Value, depth int) bool {
 		}
 	}
 	return false
+}
+
+// fromSAMLRequestQuery: v is true exactly when SAMLRequest is a key of the URL query: the comma-ok of the lookup, or
+// the result of a module function that returns nothing else.
+func (cx *Ctx) fromSAMLRequestQuery(v ssa.Value, depth int) bool {
+	if depth > 3 {
+		return false
+	}
+	switch x := v.(type) {
+	case *ssa.Extract:
+		if lk, ok := x.Tuple.(*ssa.Lookup); ok && x.Index == 1 {
+			if k, ok := constString(lk.Index); ok && k == "SAMLRequest" {
+				return strings.HasSuffix(calleeNameOfValue(lk.X), "(*net/url.URL).Query")
+			}
+		}
+	case *ssa.Call:
+		g := calleeOf(x)
+		if g == nil || g.Blocks == nil || g.Pkg == nil || !isModulePath(g.Pkg.Pkg.Path()) {
+			return false
+		}
+		rets := returnsOf(g)
+		if len(rets) == 0 {
+			return false
+		}
+		for _, ret := range rets {
+			if len(ret.Results) != 1 || !cx.fromSAMLRequestQuery(ret.Results[0], depth+1) {
+				return false
+			}
+		}
+		return true
+	}
+	return false
+}
+
+func calleeNameOfValue(v ssa.Value) string {
+	if c, ok := v.(*ssa.Call); ok {
+		return calleeName(c)
+	}
+	return ""
+}
+
+// deflateDefaultByHelper: see the call site. Returns ("", true) when the form's Encoding is the result of such a
+// helper, (reason, false) when a helper computes it differently, ("", false) when there is no such helper.
+func (cx *Ctx) deflateDefaultByHelper(fn *ssa.Function, form string) (string, bool) {
+	fx := cx.Fx
+	for _, st := range fx.info(fn).stores {
+		fa, ok := st.Addr.(*ssa.FieldAddr)
+		if !ok || fieldOwner(fa.X.Type()) != form || fname(fieldVar(fa.X.Type(), fa.Field)) != "Encoding" {
+			continue
+		}
+		call, ok := st.Val.(*ssa.Call)
+		if !ok {
+			continue
+		}
+		g := calleeOf(call)
+		if g == nil || g.Blocks == nil || g.Pkg != fn.Pkg {
+			continue
+		}
+		encIdx, flagIdx := -1, -1
+		for i, a := range call.Call.Args {
+			if c, isC := a.(*ssa.Call); isC && len(c.Call.Args) > 0 {
+				if k, isK := constString(c.Call.Args[len(c.Call.Args)-1]); isK && k == "SAMLEncoding" {
+					encIdx = i
+				}
+			}
+			if cx.fromSAMLRequestQuery(a, 0) {
+				flagIdx = i
+			}
+		}
+		if encIdx < 0 || flagIdx < 0 {
+			return "the helper computing the encoding is not given the SAMLEncoding parameter and whether SAMLRequest came in the query", false
+		}
+		aps, okp := fx.atomPaths(g, 256)
+		if !okp {
+			return "", false
+		}
+		sawDeflate := false
+		for i := range aps {
+			p := &aps[i]
+			rv := fx.retVal(p, 0)
+			encEmpty, encNonEmpty, flagTrue, flagFalse := false, false, false, false
+			for _, a := range p.Atoms {
+				c := stripNot(a.Cond)
+				switch a.Op {
+				case "EMPTY":
+					if bo, isB := c.(*ssa.BinOp); isB && (bo.X == ssa.Value(g.Params[encIdx]) || bo.Y == ssa.Value(g.Params[encIdx]) || unLen(bo.X) == ssa.Value(g.Params[encIdx])) {
+						if a.Neg {
+							encNonEmpty = true
+						} else {
+							encEmpty = true
+						}
+					}
+				case "TRUE":
+					if c == ssa.Value(g.Params[flagIdx]) {
+						if a.Neg {
+							flagFalse = true
+						} else {
+							flagTrue = true
+						}
+					}
+				}
+			}
+			cs, isK := constString(rv)
+			switch {
+			case isK && "const:"+cs == cDeflate:
+				sawDeflate = true
+				if !encEmpty || !flagTrue {
+					return "the DEFLATE default is not applied exactly when SAMLEncoding is absent and the message came in the query (" + atomsString(p.Atoms) + ")", false
+				}
+			case rv == ssa.Value(g.Params[encIdx]):
+				if !encNonEmpty && !flagFalse {
+					return "a request without SAMLEncoding that came in the query can keep the empty encoding (" + atomsString(p.Atoms) + ")", false
+				}
+			default:
+				return "the helper computing the encoding returns something other than DEFLATE or the encoding received", false
+			}
+		}
+		if sawDeflate {
+			return "", true
+		}
+		return "the helper computing the encoding never returns DEFLATE", false
+	}
+	return "", false
 }
